@@ -246,24 +246,6 @@ def padToExplicit (pt : PT) (padDur : Expr) (finals : List (Chan × Expr)) (isZe
 /-! ## Classes of the open findings and hypotheses of the `_partial` theorems -/
 
 mutual
-/-- no `ParallelChannelPulseTemplate` is entered through `_internal_create_program` while a transformation
-may be in effect (`tr`): outside this class PF-11 cannot occur.  Atomic templates build their waveform
-bottom-up (`build_waveform`) and are never affected. -/
-def pf11Free (tr : Bool) : PT → Bool
-  | .const .. | .table .. | .point .. | .func .. | .atomicMulti .. | .arithAtomic .. => true
-  | .seq _ subs _ _ => pf11FreeList tr subs
-  | .rep _ body .. => pf11Free tr body
-  | .forLoop _ body .. => pf11Free tr body
-  | .mapping _ body .. => pf11Free tr body
-  | .parallel _ body _ => !tr && pf11Free true body
-  | .arith _ body .. => pf11Free true body
-  | .timeReversal _ body => pf11Free tr body
-def pf11FreeList (tr : Bool) : List PT → Bool
-  | [] => true
-  | p :: ps => pf11Free tr p && pf11FreeList tr ps
-end
-
-mutual
 /-- identifiers of all templates that are entered through `_create_program` below (and including) a node -/
 def idents : PT → List String
   | .const id .. | .table id .. | .point id .. | .func id .. | .atomicMulti id .. | .arithAtomic id .. =>
@@ -287,22 +269,39 @@ def identsBelow : PT → List String
   | .timeReversal _ body => idents body
   | _ => []
 
+/-- is the template collapsed by the `to_single_waveform` set `S`? -/
+def isColl (S : List String) (p : PT) : Bool :=
+  match p.ident with
+  | some n => S.contains n
+  | none => false
+
 mutual
-/-- no template that is collapsed (named in `S`) lies inside a time reversal, and no time reversal is entered
-while a transformation may be in effect: outside this class the junction part of PF-04 cannot occur -/
-def pf04Free (S : List String) (tr : Bool) : PT → Bool
+/-- Hypothesis of the `_partial` theorems (complement of the classes of the open findings PF-11 and
+PF-04-junction, coarsened).  `S` = the identifiers collapsed by either of the two option sets compared,
+`tr1` = a transformation may be in effect in both compilations, `tr2` = the first compilation may carry an
+additional transformation.
+* A `ParallelChannelPulseTemplate` (entered through `_internal_create_program`, i.e. not below an atomic
+  template) must not be reached with an additional transformation (`tr2`), which is also the situation of a
+  collapsed template below a transformation: PF-11.
+* A `TimeReversalPulseTemplate` must not be reached with an additional transformation and must not contain a
+  collapsed template: PF-04-junction. -/
+def cleanG (S : List String) (tr1 tr2 : Bool) : PT → Bool
   | .const .. | .table .. | .point .. | .func .. | .atomicMulti .. | .arithAtomic .. => true
-  | .seq _ subs _ _ => pf04FreeList S tr subs
-  | .rep _ body .. => pf04Free S tr body
-  | .forLoop _ body .. => pf04Free S tr body
-  | .mapping _ body .. => pf04Free S tr body
-  | .parallel _ body _ => pf04Free S true body
-  | .arith _ body .. => pf04Free S true body
-  | .timeReversal _ body => !tr && (identsBelow body).all (fun i => !S.contains i) && pf04Free S tr body
-def pf04FreeList (S : List String) (tr : Bool) : List PT → Bool
+  | .seq _ subs _ _ => cleanL S tr1 tr2 subs
+  | .rep _ body .. => cleanG S tr1 tr2 body && (!(isColl S body) || cleanG S false (tr1 || tr2) body)
+  | .forLoop _ body .. => cleanG S tr1 tr2 body && (!(isColl S body) || cleanG S false (tr1 || tr2) body)
+  | .mapping _ body .. => cleanG S tr1 tr2 body && (!(isColl S body) || cleanG S false (tr1 || tr2) body)
+  | .parallel _ body _ => !tr2 && (cleanG S true false body && (!(isColl S body) || cleanG S false true body))
+  | .arith _ body .. => cleanG S true tr2 body && (!(isColl S body) || cleanG S false true body)
+  | .timeReversal _ body => !tr2 && (identsBelow body).all (fun i => !S.contains i)
+def cleanL (S : List String) (tr1 tr2 : Bool) : List PT → Bool
   | [] => true
-  | p :: ps => pf04Free S tr p && pf04FreeList S tr ps
+  | p :: ps => (cleanG S tr1 tr2 p && (!(isColl S p) || cleanG S false (tr1 || tr2) p)) && cleanL S tr1 tr2 ps
 end
+
+/-- the hypothesis for a template entered through `_create_program` -/
+def cleanW (S : List String) (tr1 tr2 : Bool) (p : PT) : Bool :=
+  cleanG S tr1 tr2 p && (!(isColl S p) || cleanG S false (tr1 || tr2) p)
 
 /-! ## Line protocol -/
 
@@ -433,8 +432,7 @@ def handle (args : List Sexp) : Sexp :=
     | some r, some g =>
       let spec0 := if r.wantSpec then denoteTop r.pt r.params r.mm r.cm else .error .unsupported
       let cls := .list [.atom "class",
-        .list [.atom "pf11free", boolSx (pf11Free (!g.isEmpty) r.pt)],
-        .list [.atom "pf04free", boolSx (pf04Free r.single (!g.isEmpty) r.pt)]]
+        .list [.atom "clean", boolSx (cleanW r.single false (!g.isEmpty) r.pt)]]
       match g.toChain? with
       | some T =>
         .list [.list [.atom "model", programObservables r (createProgramT r.pt r.params r.mm r.cm r.single T)],
